@@ -12,24 +12,24 @@ type Opts struct {
 	// Str produces the string for a position class. nil => plain words.
 	Str func(pos string) string
 	// Scalar, when non-nil, overrides generation of "any"-typed leaf values.
-	MaxSteps   int
-	MaxDepth   int  // group nesting
-	Unknown    bool // allow steps of unknown kind / unknown scalars
-	ScalarStep bool // allow "wait"/"block" scalar steps
-	BareList   bool // allow the legacy bare step list as the whole document
-	TopExtras  bool
-	PipeEnv    bool
-	BigMaps    bool // let some maps exceed 8 / 64 entries
-	Signature  bool // pre-existing signature records on some command steps
-	TypeKey    bool // sometimes use `type:` to select the step kind
-	Aliases    bool // alias keys (name/id/identifier/commands)
-	NonStrEnv  bool // non-string scalars in env / matrix
-	Timestamps bool // allow unquoted timestamps in "any" positions (YAML only)
+	MaxSteps       int
+	MaxDepth       int  // group nesting
+	Unknown        bool // allow steps of unknown kind / unknown scalars
+	ScalarStep     bool // allow "wait"/"block" scalar steps
+	BareList       bool // allow the legacy bare step list as the whole document
+	TopExtras      bool
+	PipeEnv        bool
+	BigMaps        bool // let some maps exceed 8 / 64 entries
+	Signature      bool // pre-existing signature records on some command steps
+	TypeKey        bool // sometimes use `type:` to select the step kind
+	Aliases        bool // alias keys (name/id/identifier/commands)
+	NonStrEnv      bool // non-string scalars in env / matrix
+	Timestamps     bool // allow unquoted timestamps in "any" positions (YAML only)
 	OnlyCommandish bool // only command steps and groups (signing worlds)
 	ShareSubtrees  bool // reuse generated subtrees (rendered as YAML anchor + aliases)
-	counter    int
-	pool       []*Node
-	shareID    int
+	counter        int
+	pool           []*Node
+	shareID        int
 }
 
 func (o *Opts) str(pos string) string {
